@@ -43,11 +43,13 @@ ASSUMPTIONS = [
 ]
 REQUIRED_MONITORS = ["all_processes_succeed", "values_correct", "no_load_of_partial_library",
                      "final_name_published_only_by_rename",
-                     "load_after_crash_succeeds", "gates_matched", "next_attempt_in_same_process_succeeds"]
+                     "load_after_crash_succeeds", "gates_matched", "next_attempt_in_same_process_succeeds",
+                     "peer_unaffected_by_failed_build"]
 REQUIRED_BUCKETS = {
     "quick": ["schedule:2proc", "schedule:3proc", "kill:statement", "kill:cc_write1", "kill:cc_write2",
               "kill:cc_done", "kill:after_source_removal", "killcc:cc_write1", "killcc:cc_write2", "killcc:cc_done", "hazard_window_open_during_other_lookup", "publish:rename_observed",
-              "first-use-of-missing-cache-directory:2proc", "first-use-of-missing-cache-directory:8proc", "retry:same-process"],
+              "first-use-of-missing-cache-directory:2proc", "first-use-of-missing-cache-directory:8proc", "retry:same-process",
+              "peer-holds-unopened-library-while-other-build-fails"],
 }
 REQUIRED_BUCKETS["thorough"] = REQUIRED_BUCKETS["quick"] + ["stress:4", "stress:8", "stress:16"]
 WATCHDOG_S = {"quick": 1800, "thorough": 4*3600}
@@ -202,6 +204,12 @@ def gen_cases(tier, seed):
         for sig in ("SIGKILL", "SIGTERM", "EXIT1"):
             cases.append({"id": "retry/%s-%s" % (g, sig), "kind": "retry", "mode": "killcconce:%s:%s" % (g, sig),
                           "event": ["compiler-fails-once", g, sig], "group": "rt-%s-%s" % (g, sig)})
+    for g in ("cc_write1", "cc_write2", "cc_done"):
+        for sig in ("SIGKILL", "EXIT1"):
+            cases.append({"id": "peerfail/%s-%s" % (g, sig), "kind": "peerfail", "fail": "%s:%s" % (g, sig),
+                          "group": "pf-%s-%s" % (g, sig), "cost": 2})
+    for n in (1, 3):
+        cases.append({"id": "xfs/%d" % n, "kind": "xfs", "nproc": n, "group": "xfs-%d" % n, "cost": 2})
     if tier == "thorough":
         for n in (4, 8, 16):
             for r in range(12 if n < 16 else 6):
@@ -477,6 +485,121 @@ def run_mkdir(case, rec):
         shutil.rmtree(work, ignore_errors=True)
 
 
+def run_peerfail(case, rec):
+    """Two processes miss the cache; B builds, installs and holds the model without having opened the library yet;
+    then A's build fails (its compiler dies); B's later first evaluation and a fresh process must both succeed."""
+    ref = reference()
+    work = tempfile.mkdtemp(prefix="c18-", dir=os.environ.get("RTM_SCRATCH"))
+    cache, ctrl = os.path.join(work, "cache"), os.path.join(work, "ctrl")
+    os.makedirs(ctrl)
+    procs = {}
+    nxt = {"A": 0, "B": 0}
+    log = []
+
+    def waiting(t, timeout=90.0):
+        t0 = time.monotonic()
+        while True:
+            at = read_at(ctrl, t, nxt[t])
+            if at is not None:
+                return at
+            if procs[t].poll() is not None:
+                return read_at(ctrl, t, nxt[t])
+            if time.monotonic() - t0 > timeout:
+                return "timeout"
+            time.sleep(0.001)
+
+    def grant(t):
+        open(os.path.join(ctrl, "%s.go.%d" % (t, nxt[t])), "w").close()
+        nxt[t] += 1
+
+    def advance(t, until):
+        """grant gates of t until it waits at gate *until* (not granted) or exits"""
+        while True:
+            at = waiting(t)
+            if at is None or at == "timeout":
+                return at
+            log.append([t, at["gate"]])
+            if at["gate"] == until:
+                return at
+            grant(t)
+    try:
+        procs["A"] = spawn(cache, ctrl, "A", "gated", {"RTM_C18_CCFAIL": case["fail"], "TMPDIR": work})
+        procs["B"] = spawn(cache, ctrl, "B", "gated", {"TMPDIR": work})
+        a0, b0 = waiting("A"), waiting("B")
+        if not (isinstance(a0, dict) and isinstance(b0, dict) and a0["gate"] == b0["gate"] == "lookup"):
+            rec.inconclusive("participants did not both reach the lookup gate: %r %r" % (a0, b0))
+            return
+        grant("A")                                  # A misses the cache
+        grant("B")                                  # B misses the cache
+        atA = advance("A", "cc_write1")             # A's compiler is about to write
+        atB = advance("B", "load")                  # B builds, installs, and holds the model unopened
+        if not (isinstance(atB, dict) and atB["gate"] == "load"):
+            rec.inconclusive("B did not reach its load gate: %r" % (atB,))
+            return
+        installed = [f for f in os.listdir(cache) if FINAL_NAME.match(f)]
+        advance("A", "never")                       # A runs on: its compiler fails at the chosen gate
+        rA = result_of(procs["A"], timeout=120)
+        after_fail = [f for f in os.listdir(cache) if FINAL_NAME.match(f)]
+        grant("B")                                  # B now opens the library
+        advance("B", "never")
+        rB = result_of(procs["B"], timeout=120)
+        rec.seen("peer_build_failed", 0 if rA.get("ok") else 1)
+        if rA.get("ok"):
+            rec.inconclusive("A's build did not fail (fault %s not reached)" % case["fail"])
+        okB = bool(rB.get("ok")) and rB.get("Iq") == ref
+        rec.check("peer_unaffected_by_failed_build", okB,
+                  {"fault_in_A": case["fail"], "A": {k: rA.get(k) for k in ("ok", "exit", "error")},
+                   "B": {k: rB.get(k) for k in ("ok", "exit", "error", "Iq", "stderr")}, "installed_before_fault": installed,
+                   "present_after_fault": after_fail, "log": log})
+        p3 = spawn(cache, ctrl, "F", "plain", {"CC": "cc", "TMPDIR": work})
+        r3 = result_of(p3, timeout=120)
+        rec.check("load_after_crash_succeeds", bool(r3.get("ok")) and r3.get("Iq") == ref,
+                  {"fault_in_A": case["fail"], "fresh": {k: r3.get(k) for k in ("ok", "exit", "error", "Iq")}})
+        rec.bucket("peer-holds-unopened-library-while-other-build-fails")
+        rec.set_shape(("peerfail", case["fail"]), nontrivial=not rA.get("ok"))
+        rec.observe(fault=case["fail"], log=log, A_ok=rA.get("ok"), B_ok=rB.get("ok"))
+    finally:
+        for p in procs.values():
+            if p.poll() is None:
+                try:
+                    os.killpg(p.pid, signal.SIGKILL)
+                except OSError:
+                    pass
+        shutil.rmtree(work, ignore_errors=True)
+
+
+def run_xfs(case, rec):
+    """Cache directory and temporary directory on different file systems: the final name still appears only by
+    rename (observed with inotify), and a second process started meanwhile succeeds."""
+    ref = reference()
+    work = tempfile.mkdtemp(prefix="c18-", dir=os.environ.get("RTM_SCRATCH"))
+    other = "/dev/shm"
+    if not os.path.isdir(other) or not os.access(other, os.W_OK) or os.stat(other).st_dev == os.stat(work).st_dev:
+        rec.skip("no second writable file system available")
+        rec.set_shape(("xfs", "unavailable"), False)
+        shutil.rmtree(work, ignore_errors=True)
+        return
+    shm = tempfile.mkdtemp(prefix="rtm-c18-", dir=other)
+    cache, ctrl = os.path.join(shm, "cache"), os.path.join(work, "ctrl")
+    os.makedirs(ctrl)
+    try:
+        ino = Inotify(cache)
+        procs = {t: spawn(cache, ctrl, t, "free", {"TMPDIR": work}) for t in ("X0", "X1", "X2")[:case["nproc"]]}
+        results = {t: result_of(p, timeout=180) for t, p in procs.items()}
+        bad = {t: {k: r.get(k) for k in ("exit", "error", "stderr", "timeout")} for t, r in results.items() if not r.get("ok")}
+        rec.check("all_processes_succeed", not bad, {"nproc": case["nproc"], "failed": bad, "cache_on": other},
+                  key="C18/process-failed-under-concurrent-first-use")
+        for t, r in results.items():
+            if r.get("ok"):
+                rec.check("values_correct", r["Iq"] == ref, {"process": t, "got": r["Iq"], "ref": ref})
+        judge_trace(rec, ino.stop(), {"cache_on": other, "tmpdir_on": work})
+        rec.bucket("cache-and-tmpdir-on-different-file-systems")
+        rec.set_shape(("xfs", case["nproc"]), True)
+    finally:
+        shutil.rmtree(shm, ignore_errors=True)
+        shutil.rmtree(work, ignore_errors=True)
+
+
 def run_retry(case, rec):
     ref = reference()
     work = tempfile.mkdtemp(prefix="c18-", dir=os.environ.get("RTM_SCRATCH"))
@@ -510,6 +633,10 @@ def run_case(case, rec):
         return run_mkdir(case, rec)
     if case["kind"] == "retry":
         return run_retry(case, rec)
+    if case["kind"] == "peerfail":
+        return run_peerfail(case, rec)
+    if case["kind"] == "xfs":
+        return run_xfs(case, rec)
     if case["kind"] == "sched":
         run_sched(case, rec)
     elif case["kind"] == "kill":
